@@ -586,6 +586,79 @@ def do_rewrap(env, st, i):
     return pairs
 
 
+# ---------------------------------------------------------------- sharing of mutable state (C09)
+PROD_CODE = {'copy': 0, 'sop': 1, 'astype': 2, 'aspacked': 3, 'degrade': 4, 'degrade_same': 4, 'degrade_w': 4, 'upgrade': 5,
+             'amask': 6, 'single': 7, 'single_view': 8, 'covpixmap': 9, 'covpixmap_unc': 9, 'mop': 10, 'bmap': 11,
+             'invert': 12, 'fracdet': 13, 'wr': 14, 'mklike': 15, 'bconst': 16}
+
+
+def _storage_array(m):
+    sm = m._sparse_map
+    return sm._data if hasattr(sm, '_data') else sm
+
+
+def actual_sharing(res, arg):
+    """what the result of a producer shares with one of its arguments:
+    (the coverage object, memory of the storage array, the metadata object)"""
+    cov = (res._cov_map is arg._cov_map) or bool(np.shares_memory(res._cov_map._cov_index_map, arg._cov_map._cov_index_map))
+    sp = bool(np.shares_memory(_storage_array(res), _storage_array(arg)))
+    md = (res._metadata is arg._metadata) and res._metadata is not None
+    return [int(cov), int(sp), int(md)]
+
+
+@step('sharing')
+def do_sharing(env, st, i):
+    """the references the result of a producer shares with its arguments, compared with the model's sharing
+    table (Sharing.prod_shares) for the first argument; nothing may be shared with any other argument.
+    From here on every mutating step of the history is also watched for in-place writes of a coverage
+    object (coverage objects may be shared because they are immutable)."""
+    res = env.maps[st['out']]
+    srcs = st['srcs']
+    env.watch_cov = True
+    pairs = []
+    first = actual_sharing(res, env.maps[srcs[0]])
+
+    def cmp(r, first=first):
+        if r[0][0] != 1 or list(r[1]) != first:
+            return [dict(step=i, what='the result of %s shares other state with its argument than the model says '
+                         '(coverage object, storage, metadata)' % st['prod'], layer='L1', impl=first, model=r[1] if len(r) > 1 else r)]
+        return []
+    pairs.append(([[45], [PROD_CODE[st['prod']]]], cmp))
+    if first[1] or first[2]:
+        if st['prod'] != 'single_view':
+            pairs += fail(i, 'the result of %s shares mutable state (storage / metadata) with its argument' % st['prod'])
+    for s in srcs[1:]:
+        got = actual_sharing(res, env.maps[s])
+        if any(got):
+            pairs += fail(i, 'the result of %s shares state with its operand / weights / mask argument: %s' % (st['prod'], got))
+    return pairs
+
+
+MUTATING = {'upd', 'grow', 'rng', 'bits', 'vwrite', 'vwrite_valid', 'metamut', 'geom'}
+
+
+def cov_watch_before(env, st):
+    if not getattr(env, 'watch_cov', False) or st.get('op') not in MUTATING:
+        return None
+    snap = []
+    for h, m in list(env.maps.items()):
+        try:
+            snap.append((h, m._cov_map, m._cov_map._cov_index_map.copy()))
+        except Exception:  # noqa
+            pass
+    return snap
+
+
+def cov_watch_after(env, st, i, snap):
+    if not snap:
+        return []
+    for h, obj, before in snap:
+        if not np.array_equal(obj._cov_index_map, before):
+            return fail(i, 'a coverage object was written in place by %s (coverage objects are shared between '
+                        'maps and must be immutable): the one map %d referenced before the call' % (st.get('op'), h))
+    return []
+
+
 # ---------------------------------------------------------------- write / read (C03)
 TMPROOT = None
 
